@@ -275,9 +275,9 @@ func plan(thorough bool) []task {
 		grid(five, []int{3}, allLayouts, allShapes, []int{0, 1}, 1)
 	} else {
 		grid(shscen.Kinds, []int{1, 2, 3, 5}, allLayouts, allShapes, []int{0, 1}, 1)
-		// every pair of deviations: the five on 2 layouts × 2 item sets with and without the environment step, every other kind on the spread layout
-		grid(five, []int{3}, two, allUnk, []int{0, 1}, 2)
-		grid(shscen.Kinds, []int{3}, []string{"spread"}, allUnk, []int{0}, 2)
+		// every pair of deviations, 3 brokers: every kind on 2 layouts × 2 item sets, the five on every configuration
+		grid(shscen.Kinds, []int{3}, two, allUnk, []int{0, 1}, 2)
+		grid(five, []int{3}, allLayouts, allShapes, []int{0, 1}, 2)
 	}
 	var out []task
 	for _, n := range order {
@@ -368,13 +368,16 @@ func TestC23(t *testing.T) {
 		return
 	}
 	r := ev.New("C23", "model_checking")
-	r.Rule("engine N, enumerated: for every request kind the client splits (21 sharders; DescribeLogDirs in both its per-topic and all-brokers form) × brokers (quick 3; thorough 1,2,3,5) × placement of the 3 partitions of t and of the coordinators of 2 groups / 2 transactional ids (all on one broker, spread, two on one) × requested item set (all known; known + unknown topic u, unknown partition t/7, a group / id that does not exist, broker 9; known + one duplicate; one item in the legacy single-item form) × API (RequestSharded, Request) × environment step (none; leader of t/0 moved resp. coordinators rehashed after the lookup was delivered, i.e. between split and issue), one request is issued from a controlled thread and the order of lookup and shard frames and the faults (err:NOT_LEADER / NOT_COORDINATOR / COORDINATOR_NOT_AVAILABLE / COORDINATOR_LOAD_IN_PROGRESS on a shard request, COORDINATOR_NOT_AVAILABLE on a coordinator lookup, connection killed before or after the broker handled a shard request or lookup) are explored within k deviations of the default order: quick k=0 on every configuration with 3 brokers and k=1 on the five most used kinds; thorough k=1 on every configuration and k=2 on the five; distinct = (configuration, shard pattern: per shard the broker or error class and its item count) pairs")
+	r.Rule("engine N, enumerated: for every request kind the client splits (21 sharders; DescribeLogDirs in both its per-topic and all-brokers form) × brokers (quick 3; thorough 1,2,3,5) × placement of the 3 partitions of t (+ s/0 with the leader of t/0) and of the coordinators of 2 groups / 2 transactional ids (all on one broker, spread, two on one) × requested item set (all known; known + unknown topic u, unknown partition t/7, a group / id that does not exist, broker 9; known + one duplicate; one item in the legacy single-item form) × API (RequestSharded, Request) × environment step (none; leader of t/0 moved resp. coordinators rehashed after the lookup was delivered, i.e. between split and issue) × (with faults) treatment of a connection that dies on its first request (default: not retried, error shard; AlwaysRetryEOF: retried, re-split), one request is issued from a controlled thread and the order of lookup and shard frames and the faults (err:NOT_LEADER / NOT_COORDINATOR / COORDINATOR_NOT_AVAILABLE / COORDINATOR_LOAD_IN_PROGRESS on a shard request, COORDINATOR_NOT_AVAILABLE on a coordinator lookup, connection killed before or after the broker handled a shard request, or before a lookup) are explored within k deviations of the default order: quick k=0 on every configuration with 3 brokers, k=1 on every kind (2 layouts × 2 item sets) and on every configuration of the five most used kinds; thorough k=1 on every configuration, k=2 with 3 brokers on every kind (2 layouts × 2 item sets × environment step) and on every configuration of the five; distinct = (configuration, shard pattern: per shard the broker or error class and its item count) pairs")
 	r.Assume("kfake is the broker (its handlers echo every requested item; AddPartitionsToTxn only in its single-transaction v0-v3 body)",
 		"synctests build of xsync; virtual time; timer ticks are not explored (a request timeout is the killafter fault)",
 		"goroutine micro-interleavings inside one event are the Go runtime's",
 		"an item of a shard = an item of its response, or of its Req if the shard carries an error; for the replica-routed kinds (DescribeLogDirs, AlterReplicaLogDirs) one piece per replica is the design, so a known partition is expected in exactly min(3, brokers) shards from distinct brokers; for the identical-to-every-broker kinds the shard item is the broker and the merged response must list every existing group / transactional id once")
 
 	sharders, missing := uncovered()
+	if missing == nil {
+		missing = []string{} // every sharder has a kind and kfake handles its key
+	}
 	r.Set("sharders_in_source", sharders)
 	r.Set("uncovered_sharders", missing)
 	r.Set("partially_covered", map[string]string{
@@ -434,6 +437,13 @@ func TestC23(t *testing.T) {
 		}
 		if res.Counters["answered_shards"] > 0 || res.Counters["merged_ok"] > 0 {
 			s.Answered++
+		}
+		if n := res.Counters["duplicate_item_in_separate_shards"]; n > 0 {
+			// the lenient reading of "exactly one shard" for an item listed twice was used
+			r.Add("executions_with_a_duplicate_item_in_separate_shards", 1)
+		}
+		if res.Counters["horizon"] > 0 {
+			r.Add("executions_ended_by_horizon", 1)
 		}
 		fault, reorder := false, false
 		for _, kd := range job.Kinds {
